@@ -320,7 +320,30 @@ fn mem_addr_for(d: &Desc, sz: u32, k: &Knobs, rng: &mut Rng) -> u32 {
 
 /// Generic instantiation of one form; i is the running case number for this form (drives the
 /// systematic part: register numbers, CCR, boundary values), rng the rest.
+/// Case numbers from GRID_BASE on select the SYSTEMATIC value grid of the arithmetic / logic / shift rows:
+/// g = i - GRID_BASE, destination operand pattern g % 256, source operand pattern g / 256.  Byte operands: the
+/// pattern is the value itself (all 256); word operands: four nibbles, long operands: four bytes, each taken from
+/// a 4-element set by two bits of the pattern (so every mix of low / high / sign-boundary digits occurs, not
+/// just the boundary values of the whole word).
+pub const GRID_BASE: usize = 1 << 24;
+pub const GRID_SRC_QUICK: [u32; 24] = [0x00, 0x01, 0x02, 0x07, 0x08, 0x0f, 0x10, 0x11, 0x1f, 0x33, 0x3c, 0x55, 0x5a, 0x66, 0x7f, 0x80, 0x81, 0x99, 0xa5, 0xaa, 0xc3, 0xf0, 0xfe, 0xff];
+pub fn grid_value(sz: u32, pat: u32) -> u32 {
+    match sz {
+        1 => pat & 0xff,
+        2 => {
+            let d = [0x0u32, 0x7, 0x8, 0xf];
+            (0..4).fold(0, |acc, n| acc | (d[((pat >> (2 * n)) & 3) as usize] << (4 * n)))
+        }
+        _ => {
+            let d = [0x00u32, 0x7f, 0x80, 0xff];
+            (0..4).fold(0, |acc, n| acc | (d[((pat >> (2 * n)) & 3) as usize] << (8 * n)))
+        }
+    }
+}
+
 pub fn gen_generic(f: &Form, i: usize, k: &Knobs, rng: &mut Rng) -> Case {
+    let grid: Option<(u32, u32)> = if i >= GRID_BASE { Some((((i - GRID_BASE) % 256) as u32, ((i - GRID_BASE) / 256) as u32)) } else { None };
+    let i = if i >= GRID_BASE { i - GRID_BASE } else { i };
     let mut b = Builder::new(f, rng);
     let sz = f.sz;
     // --- register / bit-number nibbles: systematic over the first |A| x |B| cases
@@ -337,7 +360,7 @@ pub fn gen_generic(f: &Form, i: usize, k: &Knobs, rng: &mut Rng) -> Case {
         let n = if sys { lb[(i / na) % nb] } else { rng.pick(&lb) };
         b.set_nib(f.b.wi, f.b.p, n);
     }
-    b.regs.ccr = ((i * 97 + 13) % 256) as u8;
+    b.regs.ccr = if grid.is_some() { ((i as u64).wrapping_mul(0x9e3779b97f4a7c15) >> 40) as u8 } else { ((i * 97 + 13) % 256) as u8 };
     let upper = k.uppers[i % k.uppers.len()];
 
     // --- memory operand
@@ -388,7 +411,7 @@ pub fn gen_generic(f: &Form, i: usize, k: &Knobs, rng: &mut Rng) -> Case {
         "ADD" | "SUB" | "CMP" | "ADDX" | "AND" | "OR" | "XOR" | "MULXU" | "DIVXU" => {
             let dsz = b.desc_sz(&f.b);
             let ssz = b.desc_sz(&f.a);
-            let va = vals(dsz, j % (nvals(dsz) + 8), rng);
+            let mut va = vals(dsz, j % (nvals(dsz) + 8), rng);
             let mut vb = vals(ssz, jb % (nvals(ssz) + 8), rng);
             match rng.below(12) {
                 0 => vb = va,
@@ -396,6 +419,10 @@ pub fn gen_generic(f: &Form, i: usize, k: &Knobs, rng: &mut Rng) -> Case {
                 2 => vb = va.wrapping_neg(),
                 3 => vb = (!va).wrapping_add(2),
                 _ => {}
+            }
+            if let Some((pa, pb)) = grid {
+                va = grid_value(dsz, pa);
+                vb = grid_value(ssz, pb);
             }
             if mn == "DIVXU" {
                 // property domain: non-zero divisor, quotient fits; aim there most of the time
@@ -433,6 +460,9 @@ pub fn gen_generic(f: &Form, i: usize, k: &Knobs, rng: &mut Rng) -> Case {
                     _ => rng.pick(&[0x7fffffff, 0x80000000, 0xffffffff, 0x00000000, 0x00ffffff, 0x01000000]),
                 };
                 v = if rng.chance(1, 2) { base.wrapping_add(rng.pick(&near)) } else { base.wrapping_sub(rng.pick(&near)) };
+            }
+            if let Some((pa, _)) = grid {
+                v = grid_value(sz, pa);
             }
             let fld = b.nib(f.b.wi, f.b.p);
             b.set_view(sz, fld, v);
